@@ -14,6 +14,7 @@ package rfc8628
 //@ spec func dev_unchanged() bool = dev_live == old(dev_live) && dev_used == old(dev_used) && dev_req == old(dev_req) && dev_rid == old(dev_rid) && dev_client == old(dev_client)
 
 //@ interface DeviceAuthStorage.CreateDeviceAuthSession
+//@   requires [C20.stored-device-form-has-no-secret] formget(request.GetRequestForm(), "client_secret") == "" && formget(request.GetRequestForm(), "client_assertion") == ""
 //@   modifies dev_ever, dev_live, dev_used, dev_req, dev_rid, dev_client, stored, faults, tx_escaped
 //@   ensures tx_escaped == old(tx_escaped) + escapes(ctx, err)
 //@   ensures err == nil ==> dev_live == upd(upd(old(dev_live), deviceCodeSignature, true), userCodeSignature, true) && dev_req == upd(upd(old(dev_req), deviceCodeSignature, request), userCodeSignature, request) && dev_rid == upd(upd(old(dev_rid), deviceCodeSignature, request.GetID()), userCodeSignature, request.GetID()) && dev_client == upd(upd(old(dev_client), deviceCodeSignature, request.GetClient().GetID()), userCodeSignature, request.GetClient().GetID()) && stored == upd(old(stored), request, true) && faults == old(faults)
@@ -124,6 +125,7 @@ package rfc8628
 //@   ensures [C16.denied] polled && dev_live[sig] && dev_req[sig].GetUserCodeState() == fosite.UserCodeRejected ==> ekind(err) == "access_denied" || ekind(err) == "server_error"
 //@   ensures [C16.replay-refused] !dev_live[sig] ==> err != nil
 //@   ensures [C16.replay-revokes] dev_used[sig] && !dev_live[sig] && dev_req[sig] != nil && faults == old(faults) && !rl_blocked && ekind(err) == "invalid_grant" ==> (forall s string :: acc_exists[s] ==> acc_rid[s] != dev_rid[sig]) && (forall s string :: ref_exists[s] && ref_rid[s] == dev_rid[sig] ==> !ref_active[s])
+//@   ensures [C08.device-tokens-carry-the-grant-id] err == nil ==> requester.GetID() == dev_rid[sig]
 
 // ---------------------------------------------------------------- device / user code strategy (C07, C16)
 // expired(exp, requestedAt, lifespan, now): the documented source order - session expiry if set, else requested-at + lifespan.
